@@ -98,6 +98,19 @@ func genC06(tier string, rng *RNG, w *CaseWriter) {
 		emitRev(w, mkCase(0, []cplan{{srcPlan: srcPlan{C: []dpBehav{dpByName("clean"), dpByName("fetch-fail")}}, faults: []string{"", fk}}}, time.Time{}, true, "", ""), true, "crl-clean-then-fault")
 		emitRev(w, mkCase(0, []cplan{{srcPlan: srcPlan{C: []dpBehav{dpByName("fetch-fail"), dpByName("clean")}}, faults: []string{fk, ""}}}, time.Time{}, true, "", ""), true, "crl-fault-then-clean")
 	}
+	// unsupported URL schemes on distribution points: alone, mixed with http points, at any position, with and without responders
+	for _, sch := range []string{"ldap", "https", "ftp"} {
+		ff := dpByName("fetch-fail")
+		for _, http := range []bool{true, false} {
+			emitRev(w, mkCase(0, []cplan{{srcPlan: srcPlan{C: []dpBehav{ff}, CKinds: []string{sch}}, faults: []string{""}}}, time.Time{}, http, "", ""), true, "crl-scheme:"+sch)
+			emitRev(w, mkCase(0, []cplan{{srcPlan: srcPlan{C: []dpBehav{ff, ff}, CKinds: []string{sch, "ldap"}}, faults: []string{"", ""}}}, time.Time{}, http, "", ""), true, "crl-scheme:"+sch)
+			emitRev(w, mkCase(0, []cplan{{srcPlan: srcPlan{C: []dpBehav{dpByName("clean"), ff}, CKinds: []string{"", sch}}, faults: []string{"", ""}}}, time.Time{}, http, "", ""), true, "crl-scheme:"+sch)
+			emitRev(w, mkCase(0, []cplan{{srcPlan: srcPlan{C: []dpBehav{ff, dpByName("clean")}, CKinds: []string{sch, ""}}, faults: []string{"", ""}}}, time.Time{}, http, "", ""), true, "crl-scheme:"+sch)
+			emitRev(w, mkCase(0, []cplan{{srcPlan: srcPlan{O: []ocspBehav{oErr}, C: []dpBehav{ff}, CKinds: []string{sch}}, faults: []string{""}}}, time.Time{}, http, "", ""), true, "crl-scheme:"+sch)
+			// at an intermediate position
+			emitRev(w, mkCase(0, []cplan{{srcPlan: srcPlan{O: []ocspBehav{oGood}}}, {srcPlan: srcPlan{C: []dpBehav{ff}, CKinds: []string{sch}}, faults: []string{""}}}, time.Time{}, http, "", ""), true, "crl-scheme:"+sch)
+		}
+	}
 	for _, cache := range caches[2:] {
 		for _, b := range append(append([]dpBehav{}, cGenuine...), cInvalid[0], dpByName("fetch-fail")) {
 			f := ""
@@ -119,6 +132,14 @@ func genC06(tier string, rng *RNG, w *CaseWriter) {
 				emitRev(w, mkCase(0, []cplan{{srcPlan: srcPlan{O: o, C: c}, faults: make([]string, len(c))}}, time.Time{}, http, "", cancel), true, "cancel:"+cancel)
 			}
 		}
+	}
+	for k := 0; k < 40; k++ {
+		ln := 2 + rng.Intn(3)
+		plans := make([]cplan, ln-1)
+		for i := range plans {
+			plans[i] = randCert(0)
+		}
+		emitRev(w, mkCase(0, plans, time.Time{}, rng.Bool(), "", "before"), true, "cancel:before-chain")
 	}
 	// (3) random fault assignments over chains of length 2..4, with the isolation companion
 	n := 700
